@@ -473,6 +473,10 @@ def run(prog, rep):
     # the byte-level comparisons are faithful to content only while the numeric primitive encodes CONTENT (element order C,
     # fixed dtype), not the memory layout of the array that happens to hold it
     rep.attempt(PR.tdftype_primitives, prog, rep)
+    # .. and while no value is narrowed on its way to the primitive: a scratch array of a narrower type than the on-disk field wraps
+    # counts / codes, so the decode differs from the block (and two different blocks decode alike)
+    from ..staging import staging_dtypes
+    rep.attempt(staging_dtypes, prog, rep)
     # 'equal to the block obtained by encoding and decoding it': the decode IS the block only if writer and reader agree field by field
     # and every stored field comes back in its own attribute (C01's term comparison and attribute linkage, a premise here)
     from .c01 import attr_linkage, report_unit
